@@ -1,5 +1,6 @@
 //! Shared pieces of the correspondence harness: PRNG, wire format, Lean driver runner, report.
 pub mod driver;
+pub mod lexwire;
 pub mod report;
 pub mod rng;
 pub mod wire;
